@@ -20,6 +20,7 @@ Class OrderedField (F : Type) {Fo : FieldOps F} := {
   fle : F -> F -> Prop;
   fle_refl : forall x, fle x x;
   fle_trans : forall x y z, fle x y -> fle y z -> fle x z;
+  fle_antisym : forall x y, fle x y -> fle y x -> x = y;
   fle_add_r : forall x y z, fle x y -> fle (fadd x z) (fadd y z);
   fle_mul_nonneg : forall x y, fle fzero x -> fle fzero y -> fle fzero (fmul x y);
   fle_sq : forall x, fle fzero (fmul x x)
@@ -375,6 +376,7 @@ Global Instance QcOrdered : @OrderedField Qc QcOps := {|
   fle := Qcle;
   fle_refl := Qcle_refl;
   fle_trans := Qcle_trans;
+  fle_antisym := Qcle_antisym;
   fle_add_r := fun x y z H => Qcplus_le_compat x y z z H (Qcle_refl z);
   fle_mul_nonneg := Qc_mul_nonneg;
   fle_sq := Qc_sq_nonneg
